@@ -53,11 +53,24 @@ Good == Ok /\ RefsOK(R.after) /\ TopoOKH(R.after)
 \* resolving / transforming succeeds
 NoException == Ok \/ Fail("NoException")
 Names(st, q) == [i \in 1..Len(q) |-> NameOf(st, q[i])]
-\* names and order of the ports and of the state elements are unchanged
-NamesKept == (a > 0 \/ ~Good \/
-                /\ Names(R.before, R.before.io) = Names(R.after, R.after.io)
-                /\ Names(R.before, HSeq(R.before, Lib)) = Names(R.after, HSeq(R.after, Lib))
-                /\ Len(InPorts(R.before)) = Len(InPorts(R.after))) \/ Fail("NamesKept")
+SeqB == Names(R.before, HSeq(R.before, Lib))
+SeqA == Names(R.after, HSeq(R.after, Lib))
+SetOf(q) == {q[i] : i \in 1..Len(q)}
+\* names and order of the ports are unchanged
+PortNamesKept == (a > 0 \/ ~Good \/
+                    /\ Names(R.before, R.before.io) = Names(R.after, R.after.io)
+                    /\ Len(InPorts(R.before)) = Len(InPorts(R.after))) \/ Fail("PortNamesKept")
+\* the same state elements exist before and after ...
+StateNamesKept == (a > 0 \/ ~Good \/ (Len(SeqA) = Len(SeqB) /\ SetOf(SeqA) = SetOf(SeqB) /\ Cardinality(SetOf(SeqB)) = Len(SeqB))) \/ Fail("StateNamesKept")
+\* ... in the same order
+StateOrderKept == (a > 0 \/ ~Good \/ SetOf(SeqA) # SetOf(SeqB) \/ Len(SeqA) # Len(SeqB) \/ SeqA = SeqB) \/ Fail("StateOrderKept")
+Aligned == Good /\ Len(SeqA) = Len(SeqB) /\ SetOf(SeqA) = SetOf(SeqB) /\ Cardinality(SetOf(SeqB)) = Len(SeqB)
+              /\ Len(InPorts(R.before)) = Len(InPorts(R.after)) /\ Len(OutPorts(R.before)) = Len(OutPorts(R.after))
+\* position in `before` of the state element that `after` lists at position k (matched by name)
+PosB(k) == CHOOSE i \in 1..Len(SeqB) : SeqB[i] = SeqA[k]
+NIP == Len(InPorts(R.before))
+NOP == Len(OutPorts(R.before))
+SrcVA == [i \in 1..NSrc |-> IF i <= NIP THEN SrcV[i] ELSE SrcV[NIP + PosB(i - NIP)]]
 \* no unresolved library cell is left behind by resolve
 Resolved == (a > 0 \/ ~Good \/ ~R.resolve \/ \A n \in 0..(NNodes(R.after) - 1) : ~IsInst(Lib, NodeOf(R.after, n))) \/ Fail("Resolved")
 \* requesting branch forks only inserts forks: the cells (non-fork nodes) are the same (C11)
@@ -80,6 +93,10 @@ Ambiguous(st) == \E n \in 0..(NNodes(st) - 1) : LET nd == NodeOf(st, n) IN
                    IsInst(Lib, nd) /\ \E j \in 1..Len(InPorts(Lib[nd.kind])) :
                        (j > Len(nd.ins) \/ nd.ins[j] < 0) /\ AmbiguousPin(Lib[nd.kind], j)
 \* the Boolean function observed at ports and state elements is unchanged
-FuncKept == (~Good \/ Len(HSources(R.after, Lib)) # NSrc \/ Ambiguous(R.before) \/
-               ObsH(R.before, Lib, SrcV, EvalH(R.before, Lib, SrcV)) = ObsH(R.after, Lib, SrcV, EvalH(R.after, Lib, SrcV))) \/ Fail("FuncKept")
+FuncKept == (~Aligned \/ Ambiguous(R.before) \/
+               LET ob == ObsH(R.before, Lib, SrcV, EvalH(R.before, Lib, SrcV))
+                   oa == ObsH(R.after, Lib, SrcVA, EvalH(R.after, Lib, SrcVA))
+               IN /\ Len(ob) = Len(oa)
+                  /\ \A i \in 1..NOP : ob[i] = oa[i]
+                  /\ \A k \in 1..Len(SeqA) : oa[NOP + k] = ob[NOP + PosB(k)]) \/ Fail("FuncKept")
 =============================================================================
